@@ -2,6 +2,7 @@ package oracle
 
 import (
 	"fmt"
+	"io"
 	"regexp"
 	"sort"
 	"sync"
@@ -92,6 +93,8 @@ func checkC10race(ctx *core.Ctx, rep *core.Report) {
 					_ = g.ByName("e_basic_constraints_not_critical")
 					_ = g.BySource(lint.RFC5280)
 					_, _ = g.DefaultConfiguration()
+					g.WriteJSON(io.Discard)
+					fr.WriteJSON(io.Discard)
 					zl.Lint(o, g)
 				}
 			}
@@ -159,6 +162,17 @@ func c10raceCold(rep *core.Report, all []seeds.Seed, g lint.Registry, name strin
 				}
 			}()
 			<-start
+			switch w % 8 {
+			case 3: // the process's first listing / WriteJSON runs next to the first lint runs
+				_ = g.Names()
+				_ = g.Sources()
+				g.WriteJSON(io.Discard)
+				_, _ = g.DefaultConfiguration()
+			case 5: // … and its first Filter
+				if fr, err := g.Filter(lint.FilterOptions{NameFilter: regexp.MustCompile("^[ew]_")}); err == nil {
+					fr.WriteJSON(io.Discard)
+				}
+			}
 			rs, p := zl.Lint(objs[w], g)
 			if p != nil {
 				got[w] = fmt.Sprintf("PANIC %v", p)
